@@ -9,7 +9,7 @@ open TapkeeVerif.Front TapkeeVerif.Gen
 
 structure TypedVals where
   int : Kw → Int
-  real : Kw → Rat
+  real : Kw → XReal
   bool : Kw → Bool
   meth : Kw → Meth
   nbr : Kw → NbrMeth
@@ -34,14 +34,32 @@ def TypedVals.val (t : TypedVals) (k : Kw) : Val :=
 def TypedVals.get (t : TypedVals) (k : Kw) : Except Err Val := .ok (t.val k)
 
 /-- numeric view: the value of an `IndexType` / `ScalarType` keyword as a rational -/
-def TypedVals.num (t : TypedVals) (k : Kw) : Rat :=
+def TypedVals.num (t : TypedVals) (k : Kw) : XReal :=
   match k.ty with
-  | .int => (t.int k : Rat)
+  | .int => .fin (t.int k : Rat)
   | .real => t.real k
   | _ => 0
 
-@[simp] theorem truncRat_intCast (i : Int) : truncRat (i : Rat) = i := by
-  simp [truncRat, Int.tdiv_one]
+@[simp] theorem truncQ_intCast (i : Int) : XReal.truncQ (i : Rat) = i := by
+  simp [XReal.truncQ, Int.tdiv_one]
+
+/-! ### IEEE order on finite values is the order of the rationals -/
+@[simp] theorem XReal.fin_le_fin (a b : Rat) : (XReal.fin a ≤ XReal.fin b) ↔ a ≤ b := Iff.rfl
+@[simp] theorem XReal.fin_lt_fin (a b : Rat) : (XReal.fin a < XReal.fin b) ↔ a < b := Iff.rfl
+@[simp] theorem XReal.fin_eqv_fin (a b : Rat) : XReal.eqv (.fin a) (.fin b) ↔ a = b := Iff.rfl
+@[simp] theorem XReal.ofNat_eq (n : Nat) : (OfNat.ofNat n : XReal) = .fin (OfNat.ofNat n) := rfl
+@[simp] theorem XReal.natCast_eq (n : Nat) : ((n : Nat) : XReal) = .fin (n : Rat) := rfl
+@[simp] theorem XReal.intCast_eq (i : Int) : ((i : Int) : XReal) = .fin (i : Rat) := rfl
+@[simp] theorem XReal.fin_add_fin (a b : Rat) : XReal.fin a + XReal.fin b = .fin (a + b) := rfl
+@[simp] theorem XReal.fin_sub_fin (a b : Rat) : XReal.fin a - XReal.fin b = .fin (a - b) := rfl
+@[simp] theorem XReal.fin_mul_fin (a b : Rat) : XReal.fin a * XReal.fin b = .fin (a * b) := rfl
+@[simp] theorem XReal.fin_div_fin (a b : Rat) : XReal.fin a / XReal.fin b = .fin (a / b) := rfl
+@[simp] theorem XReal.trunc_fin (q : Rat) : XReal.trunc (.fin q) = .fin (XReal.truncQ q : Rat) := rfl
+/-- NaN satisfies no comparison -/
+@[simp] theorem XReal.nan_le (x : XReal) : ¬ (XReal.nan ≤ x) := by cases x <;> exact id
+@[simp] theorem XReal.le_nan (x : XReal) : ¬ (x ≤ XReal.nan) := by cases x <;> exact id
+@[simp] theorem XReal.nan_lt (x : XReal) : ¬ (XReal.nan < x) := by cases x <;> exact id
+@[simp] theorem XReal.lt_nan (x : XReal) : ¬ (x < XReal.nan) := by cases x <;> exact id
 
 theorem kw_ty_ne_other (k : Kw) (s : String) : k.ty ≠ .other s := by cases k <;> simp [Kw.ty]
 
@@ -67,9 +85,9 @@ theorem typedOf_get (ps : PSet) (h : ∀ k, ∃ v, lookup k ps.pmap = some v ∧
   simp [PSet.get, hv, TypedVals.get, typedOf_val ps.pmap k v hv hty]
 
 /-- numeric value of a keyword in a parameter set (0 if absent or not numeric) -/
-def numOf (ps : PSet) (k : Kw) : Rat :=
+def numOf (ps : PSet) (k : Kw) : XReal :=
   match lookup k ps.pmap with
-  | some (.int i) => (i : Rat)
+  | some (.int i) => .fin (i : Rat)
   | some (.real q) => q
   | _ => 0
 
